@@ -70,7 +70,9 @@ class PivotedCholesky(Function):
 
             # Populate L[..., m, m] with the sqrt of the max diagonal element
             L_m = L[..., m, :]  # Will be all zeros -- should we use torch.zeros?
-            L_m.scatter_(-1, pi_m.unsqueeze(-1), max_diag_values.sqrt().unsqueeze_(-1))
+            # (a batch member whose residual has already vanished keeps iterating while other members have not
+            # converged: its pivot is zero up to rounding, so clamp before the square root)
+            L_m.scatter_(-1, pi_m.unsqueeze(-1), max_diag_values.clamp_min(0.0).sqrt().unsqueeze_(-1))
 
             # Populater L[... m:, m] with L[..., m:, m] * L[..., m, m].sqrt()
             if m + 1 < matrix_shape[-1]:
@@ -87,7 +89,9 @@ class PivotedCholesky(Function):
                     )
                     L_m_new -= torch.sum(update * L_prev, dim=-2)
 
-                L_m_new /= L_m.gather(-1, pi_m.unsqueeze(-1))
+                # a zero pivot means this batch member is already factorized exactly: its remaining columns are zero
+                pivot = L_m.gather(-1, pi_m.unsqueeze(-1))
+                L_m_new = torch.where(pivot > 0, L_m_new / pivot, torch.zeros_like(L_m_new))
                 L_m.scatter_(-1, pi_i, L_m_new)
 
                 matrix_diag_current = matrix_diag.gather(-1, pi_i)
